@@ -32,7 +32,7 @@ theorem restore_ok_imp_wellformed (t : CmpTree) (h : cmpRestore true t = Out.ok)
   have hl := pubLoop_ok t.id t.pub [] hloop
   have ht := (validThreshold_iff _ _).1 (by simpa using hthr)
   refine ⟨by simpa using hn, hid, he, hg, hp, hq, hrid, ?_, hl.1, hl.2.1, by simpa using hself, ht.1, ht.2.2⟩
-  simpa using hck
+  simpa [or_assoc] using hck
 
 /-- guarded decoder: no path other than ok / error -/
 theorem restore_total (t : CmpTree) : cmpRestore true t ≠ Out.crash := by
@@ -163,6 +163,28 @@ theorem gen_restore_tables :
     MpsGen.Codec.presigUnmarshalCBOR = fixed.presigUnmarshalCBOR ∧
     MpsGen.Codec.signatureUnmarshalCBOR = fixed.signatureUnmarshalCBOR ∧
     MpsGen.Codec.otSendSetupFields = fixed.otSendSetupFields := by
+  decide
+
+open Mps.Guards.Pinned in
+/-- the validators the restore paths rely on are the pinned ones: a restored prime is checked for size, 3 mod 4, primality
+    of p AND of (p-1)/2 (the tree as found tested only (p-1)/2: a composite p was accepted - `head.validatePrime`); a
+    modulus for bit length and oddness; Pedersen parameters for membership in Z_N^* and s ≠ t; a RID for its length and
+    for not being zero; frost / doerner configs for the rules of `Config.Validate` -/
+theorem gen_validators :
+    MpsGen.Codec.validatePrime = fixed.validatePrime ∧ MpsGen.Codec.validateN = fixed.validateN ∧
+    MpsGen.Codec.pedersenValidateParameters = fixed.pedersenValidateParameters ∧
+    MpsGen.Codec.ridValidate = fixed.ridValidate ∧
+    MpsGen.Codec.frostConfigValidate = fixed.frostConfigValidate ∧
+    MpsGen.Codec.taprootConfigValidate = fixed.taprootConfigValidate ∧
+    MpsGen.Codec.frostValidateShares = fixed.frostValidateShares ∧
+    MpsGen.Codec.doernerReceiverValidate = fixed.doernerReceiverValidate ∧
+    MpsGen.Codec.doernerSenderValidate = fixed.doernerSenderValidate := by
+  decide
+
+/-- the tree as found did not test p itself (kept: the pinned `head` table) -/
+theorem validatePrime_head_lacks_primality :
+    "!p.Big().ProbablyPrime(1) || !pMinus1Div2.Big().ProbablyPrime(1) => ErrNotSafePrime" ∈ Mps.Guards.Pinned.fixed.validatePrime ∧
+    "!p.Big().ProbablyPrime(1) || !pMinus1Div2.Big().ProbablyPrime(1) => ErrNotSafePrime" ∉ Mps.Guards.Pinned.head.validatePrime := by
   decide
 
 /-! ### non-vacuity -/
